@@ -24,7 +24,7 @@ ASSUMPTIONS = ['CPython cannot wipe immutable ints: "holds no secret integer" is
                'failpoints are never placed inside the cleanup code itself (user code cannot fail there)']
 MIN_COUNTERS = {'quick': {'protect_checked': 20, 'ref_recovered_secrets': 40, 'foreign_unlocked': 30, 'history_steps': 100, 'faults_injected': 1500, 'graph_scans': 1500, 'wrong_passphrase_rejected': 30},
                 'thorough': {'faults_injected': 8000, 'history_steps': 1500}}
-BUDGET = {'quick': (260, 800), 'thorough': (1800, 3600)}
+BUDGET = {'quick': (600, 1500), 'thorough': (1800, 3600)}
 TECHNIQUE = 'runtime monitoring: reference-model monitor on exports + history model + control-fault injection (sys.monitoring LINE failpoints at every line of the unlock scope) with object-graph invariant scan'
 
 KEYS = [('rsa1024_0', 'rsa1024_1'), ('dsa1024_0', 'cv25519_0'), ('ecdsa_p256_0', 'ecdh_p256_0'), ('ed25519_0', 'cv25519_1'), ('ecdsa_k256_0', 'ed25519_1'), ('rsa2048_0', 'ecdh_p384_0')]
